@@ -4,6 +4,7 @@ CONSTANTS
   Txns = {1,2,3}
   MaxVal = 9
   MaxOps = 0
+  Branchable = FALSE
   CheckEvents = TRUE
 INVARIANTS TypeOK FirstCommitterWins SnapshotStable
 VIEW TraceView
